@@ -145,4 +145,4 @@ def relevant_difference(c, mo, io):
     return True
 
 def known_F1_tilde_else_chain(c, mo, io):
-    return bool(re.search(r'\{\{~\s*(else\s+[^}\s~]|\^\s*[^}\s~])', c['src'])) and io is not None and 'PANIC' in io
+    return bool(re.search(r'\{\{~\s*(else|\^)\s*[^}\s~]', c['src'])) and io is not None and 'PANIC' in io
